@@ -134,6 +134,18 @@ Theorem C20_dc_eventual_delivery : forall c evs0 evs k, (0 < c_idle c)%N ->
   read w2 = written w2 /\ rc_eof (w_r w2) = true.
 Proof. exact DcStreamProofs.dc_eventual_delivery. Qed.
 
+(* no deadlock on the protocol's side: a pending range holding something the receiver lacks becomes, by
+   the sender's own Retransmit, a fresh-numbered packet whose delivery is a helpful step *)
+Theorem C20_dc_retransmit_useful : forall c evs sg rest, (0 < c_idle c)%N ->
+  let w := run c evs in
+  tm_live (sd_tm (w_s w)) = true ->
+  sd_retx (w_s w) = sg :: rest ->
+  DcStreamProofs.accepting (w_r w) = true ->
+  (existsb (fun o => DcStreamProofs.isnone (lookup o (rc_buf (w_r w)))) (seq (s_off sg) (s_len sg))
+   || (s_fin sg && DcStreamProofs.isnone (rc_final (w_r w)))) = true ->
+  DcStreamProofs.useful (step w Retransmit) (Deliver (length (w_net w))) = true.
+Proof. exact DcStreamProofs.dc_retransmit_useful. Qed.
+
 (* the simulation monitor: what acceptance of an observed exchange means *)
 Theorem C20_dcsim_judge_sound : forall pay0 pay1 case out,
   dcsim_judge case out = true -> DcStreamProofs.sim_meaning pay0 pay1 case out.
@@ -179,6 +191,7 @@ Print Assumptions C20_dead_receiver_ignores_packets.
 Print Assumptions C20_dc_coverage.
 Print Assumptions C20_dc_measure.
 Print Assumptions C20_dc_eventual_delivery.
+Print Assumptions C20_dc_retransmit_useful.
 Print Assumptions C20_dcsim_judge_sound.
 Print Assumptions C20_dcrecv_judge_sound.
 Print Assumptions C20_monitor_accepts_model.
